@@ -168,9 +168,11 @@ Theorem set_val_wide_ints f r o raw zs : 64 <= nw f -> (raw = true \/ 0 <= nf f)
     w_ovf w = existsb (fun c => cmax f <? c) cs /\
     w_unf w = existsb (fun c => c <? cmin f) cs.
 Proof.
-  intros Hn Hraw. cbv zeta. unfold set_val_real.
-  assert (Hobj: obj_path f raw (AObj (map NI zs)) = true) by (unfold obj_path; replace (64 <=? nw f) with true by lia; rewrite orb_true_r; reflexivity).
-  rewrite Hobj. cbn [arr_nums bind].
+  intros Hn Hraw. cbv zeta.
+  assert (Hobj: obj_path f raw (AObj (map NI zs)) VInt = true) by (unfold obj_path; replace (64 <=? nw f) with true by lia; rewrite orb_true_r; reflexivity).
+  assert (Hxq: exact_factor f raw (AObj (map NI zs)) = false).
+  { destruct Hraw as [-> | Hnf]; [apply exact_factor_raw | apply exact_factor_nf; exact Hnf]. }
+  rewrite (set_val_real_eq _ _ _ _ _ _ _ Hobj Hxq). cbn [arr_nums bind].
   set (g := fun z : Z => if raw then z else z * 2^(nf f)).
   destruct (mapM_exists (elem_pipe f r o raw true)
               (fun x b => exists z, x = NI z /\ e_code b = overflow o f (g z) /\ e_gt b = (cmax f <? g z) /\ e_lt b = (g z <? cmin f))
@@ -179,7 +181,7 @@ Proof.
     destruct (elem_pipe_obj_int f r o raw z Hn Hraw) as (ia & Hia). eexists. split; [exact Hia|].
     exists z. cbn. auto. }
   rewrite Hbs. cbn [bind]. eexists. split; [reflexivity|]. cbn [w_codes w_ovf w_unf].
-  clear Hbs Hobj. revert bs HF. induction zs as [|z zs IH]; intros bs HF; inversion HF; subst; cbn [map existsb].
+  clear Hbs Hobj Hxq. revert bs HF. induction zs as [|z zs IH]; intros bs HF; inversion HF; subst; cbn [map existsb].
   - auto.
   - destruct H1 as (z' & Hz' & Hc & Hg & Hl). injection Hz' as <-.
     destruct (IH _ H3) as (I1 & I2 & I3). rewrite Hc, Hg, Hl, I1, I2, I3. auto.
